@@ -208,7 +208,12 @@ def main(argv):
         if not any(p['merge'] == 'match' for p in et['props']):
             et['props'][0].update(merge='match', data_type='string:0:mc:u', optional=False, multivalued=False)
         a = gen_collection(rng, et)
-        kind, b, oc = mutate(rng, et, a)
+        if rng.random() < 0.04:
+            # collections without events: only the ontologies are left to compare
+            a = []
+            kind, b, oc = rng.choice([('same', [], False), ('ontology', [], True), ('add-event', [dict(M.gen_group(rng, et, size=1)[0], tag=7)], False)])
+        else:
+            kind, b, oc = mutate(rng, et, a)
         res = run_impl(et, a, b, oc)
         ck.cov['evaluations'] += 1
         inp = {'etype': et, 'a': a, 'b': b, 'ontology_changed': oc, 'kind': kind}
@@ -224,6 +229,49 @@ def main(argv):
         if all(r in (0, 1, 2, 3) for r in res):
             terms.append(coq((M.et_term(et), M.rank_tables(et), not oc, items_term(et, a), items_term(et, b), res[0], res[1])))
             metas.append(inp)
+    # histories: compare, edit an event of one collection in place (a hashed object changes), compare again
+    for i in range(ck.budget(150, 3000)):
+        et = M.gen_etype(rng, force_version=False, strategies=['match', 'match', 'add', 'min', 'max'], exclude_types=EXCL)
+        if not any(p['merge'] == 'match' for p in et['props']):
+            et['props'][0].update(merge='match', data_type='string:0:mc:u', optional=False, multivalued=False)
+        a = gen_collection(rng, et)
+        b = copy.deepcopy(a)
+        rng.shuffle(b)
+        ca, cb = to_collection(et, a), to_collection(et, b)
+        inp = {'etype': et, 'a': a, 'b': b, 'kind': 'history'}
+        try:
+            r1 = (bool(ca.is_equivalent_of(cb)), bool(cb.is_equivalent_of(ca)))
+            hashed = [p for p in et['props'] if p['merge'] == 'match']
+            idx = rng.randrange(len(a))
+            p = rng.choice(hashed)
+            pool = [v for v in M.POOLS[p['data_type']][0] if v not in a[idx]['props'].get(p['name'], [])]
+            if not pool:
+                continue
+            newv = rng.choice(pool)
+            a2 = copy.deepcopy(a)
+            a2[idx]['props'][p['name']] = [newv]
+            a2[idx]['tag'] = 8
+            if any(hkey(et, x) == hkey(et, a2[idx]) for k, x in enumerate(a2) if k != idx):
+                continue          # would join another logical event (whose instances carry other attachment ids)
+            ev = ca[idx]
+            ev.properties[p['name']] = [newv]
+            ev.set_attachment('att', {'i8': 'e8'})
+            inp['edit'] = {'event': idx, 'property': p['name'], 'value': newv}
+            r2 = (bool(ca.is_equivalent_of(cb)), bool(cb.is_equivalent_of(ca)))
+            r3 = bool(ca.is_equivalent_of(to_collection(et, a2)))
+        except Exception as e:
+            ck.oracle_failures.append({'signature': 'history/raises/' + type(e).__name__, 'input': inp, 'observed': repr(e)[:200]})
+            continue
+        ck.cov['evaluations'] += 5
+        ck.dist('history')
+        exp2 = logical(et, a2) == logical(et, b)
+        if r1 != (True, True):
+            ck.oracle_failures.append({'signature': 'equivalent-reported-different/permute/history', 'input': inp, 'observed': 'before the edit: %r' % (r1,)})
+        elif r2 != (exp2, exp2):
+            ck.oracle_failures.append({'signature': 'history/stale-after-in-place-edit', 'input': inp,
+                                       'observed': 'after the edit a~b, b~a = %r, logical collections %s' % (r2, 'equal' if exp2 else 'differ')})
+        elif not r3:
+            ck.oracle_failures.append({'signature': 'history/not-equivalent-to-a-copy-of-itself', 'input': inp, 'observed': 'edited collection vs a new collection with the same content: False'})
     variant = 'Fixed'
     bad, errs = run_cases(PID, IMPORTS, CASE_T, terms, agree('Fixed'), shard=150, tag='fixed')
     if bad or errs:
